@@ -1022,6 +1022,37 @@ static int probe20(uint64_t seed, const std::string& tier, const std::string& ou
             verdict(rc, "C20.recursive_include_hang", "parseString(" + t.first + ")");
         }
     }
+    // (c) INCLUDE cycles of length 1..3 in every layout of the including statement: first / middle / last
+    // statement of its file, the file ending in a newline, directly behind the slash, in blanks or in a comment
+    {
+        int id = 0;
+        for (int len = 1; len <= 3; ++len)
+            for (int where = 0; where < 3; ++where)
+                for (int ending = 0; ending < 4; ++ending)
+                    for (int quoted = 0; quoted < 2; ++quoted) {
+                        const std::string base = "cyc" + std::to_string(id++) + "_";      // relative names: a bare word cannot hold a '/'
+                        auto name = [&](int k) { return base + std::to_string(k % len) + ".inc"; };
+                        for (int k = 0; k < len; ++k) {
+                            const std::string q = quoted ? "'" : "";
+                            std::string inc = "INCLUDE\n " + q + name(k + 1) + q + " /";
+                            static const char* ends[] = { "\n", "", "   ", " -- back to the start" };
+                            std::string body = where == 0 ? inc + "\nOIL\n" : where == 1 ? "OIL\n" + inc + "\nWATER\n" : "GAS\n" + inc + ends[ending];
+                            vh::spit(tmp + "/" + name(k), body);
+                        }
+                        for (int viaFile = 0; viaFile < 2; ++viaFile) {
+                            int rc = runChild([&]() {
+                                Opm::Parser parser; Opm::ParseContext ctx; Opm::ErrorGuard errors;
+                                ctx.update(Opm::ParseContext::PARSE_MISSING_INCLUDE, Opm::InputErrorAction::THROW_EXCEPTION);
+                                if (chdir(tmp.c_str()) != 0) _exit(4);
+                                if (viaFile) { auto deck = parser.parseFile(name(0), ctx, errors); (void) deck; }
+                                else { auto deck = parser.parseString("RUNSPEC\nINCLUDE\n '" + name(0) + "' /\n", ctx, errors); (void) deck; }
+                                errors.clear();
+                            }, 4);
+                            verdict(rc, "C20.recursive_include_hang", "INCLUDE cycle of length " + std::to_string(len) + ", statement " + (where == 0 ? "first" : where == 1 ? "in the middle" : "last")
+                                    + " in its file, file ending #" + std::to_string(ending) + (quoted ? ", quoted" : ", bare") + (viaFile ? ", parseFile" : ", parseString"));
+                        }
+                    }
+    }
     std::ofstream st(outdir + "/prop_stats.json");
     st << "{\"checked\": " << (log.checked + log.failed) << ", \"failed\": " << log.failed << "}\n";
     return 0;
